@@ -406,7 +406,9 @@ impl Phase for Random {
         let depth = r.range(1, 12);
         let distinct = r.chance(1, 2);
         let ast = {
-            let vars = ["a", "b", "c", "x", "f", "g", "total", "ī", "нx", "ȫ", "ш", "a.b", "x'", "#q", "a\u{feff}b", "n\u{feff}", "\u{feff}z", "a\u{200b}", "r", "b", "a.0", "a.1", "a.1.0", "total.1", "x.len", "a[0]"];
+            let vars = ["a", "b", "c", "x", "f", "g", "total", "ī", "нx", "ȫ", "ш", "a.b", "x'", "#q", "a\u{feff}b", "n\u{feff}", "\u{feff}z", "a\u{200b}", "r", "b", "a.0", "a.1", "a.1.0", "total.1", "x.len", "a[0]",
+                // names in the builtin namespaces, names of well-known constants, `#` (a shebang needs `#!`), `_`
+                "math::t", "str::x", "math::inf", "math::nan", "math::pi", "#", "#", "_", "self", "str::"];
             let funs = ["f", "g", "h", "max", "len", "math::clamp", "str::nope", "ns::f", "math::len", "a::b::c", "a", "total", "r", "r", "b", "f\u{feff}"];
             let mut g = AstGen {
                 r,
